@@ -2,8 +2,9 @@
 C13 — (1) `beams_mask_confined`: the beam-search half of "every returned beam is a feasible solution";
 (2) the two places where C13, as worded, fails on the unchanged code, in the form DESIGN §4.3 asks for
 (`…_statement`, `…_counterexample`, `…_partial`):
-  * forced start nodes are not constrained by the mask (OP `select_start_nodes`): known finding
-    `C13-op-beam-infeasible-start`;
+  * forced start nodes are not constrained by beam search itself: the start rule must return feasible
+    nodes (`beams_mask_confined_full` under `hstart`).  OP's rule did not (finding
+    `C13-op-beam-infeasible-start`, FIXED upstream in d560d2a; C12 `op_starts_feasible` discharges `hstart`);
   * slot-conditioned policies (PolyNet): beam re-indexing moves partial solutions between strategy slots:
     known finding `C13-polynet-beam-slot-conditioned`.
 -/
@@ -92,17 +93,80 @@ theorem beams_mask_confined (e : DEnv S) (π : S → Row) (c : BeamCfg) (plus : 
       rw [← hst]
       simpa [kept] using hadm
 
-/-! ### the three places where the property, as worded, fails on the unchanged code (DESIGN §4.3) -/
+/-! ### forced first move included (interface hypothesis on the start rule) -/
 
-/-- **Full `beams_feasible` (forced move included)**: every beam is a mask-confined run from reset. -/
+theorem admittedD_of_forced (e : DEnv S) (s0 : S) (as : List Nat)
+    (h1 : admittedForced e s0 as = true) (h2 : ∀ a, as.head? = some a → e.mask s0 a = true) :
+    admittedD e s0 as = true := by
+  cases as with
+  | nil => simp [admittedD]
+  | cons a0 rest =>
+    simp only [admittedForced] at h1
+    simp [admittedD, h1, h2 a0 rfl]
+
+/-- the first action of every beam of instance `b` is one of that instance's forced start nodes -/
+theorem beam_head_is_start (e : DEnv S) (π : S → Row) (c : BeamCfg) (plus : Int → Int → Int)
+    (start : Nat → Nat) (s0 : Nat → S) {st : BeamSt S} (h : BeamReach e π c plus start s0 st) :
+    ∀ b, b < c.B → ∀ k, k < c.W → ∃ k', k' < c.W ∧
+      (btActs c.B st.bufs (k * c.B + b)).head? = some (start (k' * c.B + b)) := by
+  induction h with
+  | pre =>
+    intro b hb k hk
+    exact ⟨k, hk, by simp [beamPre, btActs, btFromActs]⟩
+  | @step st top hreach hvalid ih =>
+    intro b hb k hk
+    have hinv := beamInv_of_reach e π c plus start s0 hreach
+    obtain ⟨hlen, _, hlt, _⟩ := hvalid b hb
+    have hp := hlt _ (getD_mem (l := top b) (k := k) (by omega))
+    obtain ⟨k', hk', hh⟩ := ih b hb _ (div_lt_of_lt_mul hp)
+    refine ⟨k', hk', ?_⟩
+    cases hbufs : st.bufs with
+    | nil => exact absurd hbufs hinv.nonempty
+    | cons buf' rest =>
+      simp only [beamStep, hbufs]
+      rw [btActs_cons, ← hbufs]
+      simp only [stepBuf, parentOf, topInd_flat c top hb, flat_mod hb]
+      rw [Nat.add_comm b]
+      have hne := btActs_ne_nil c.B st.bufs hinv.nonempty ((top b).getD k 0 / c.N * c.B + b)
+      cases hx : btActs c.B st.bufs ((top b).getD k 0 / c.N * c.B + b) with
+      | nil => exact absurd hx hne
+      | cons x xs => rw [hx] at hh; simpa using hh
+
+/-- **C13 `beams_mask_confined_full`** (after upstream fix d560d2a).  Under the interface hypothesis
+that the start rule returns, for every instance, nodes its reset mask admits (`hstart`; for OP this is
+C12's `op_starts_feasible`, for the other environments C12's `starts_feasible`), every beam —
+*including* its forced first move — is a mask-confined run from its instance's reset state, so C01
+makes every finished beam a feasible solution. -/
+theorem beams_mask_confined_full (e : DEnv S) (π : S → Row) (c : BeamCfg) (plus : Int → Int → Int)
+    (start : Nat → Nat) (s0 : Nat → S)
+    (hπ : ∀ s j, gather (π s) j ≠ none → e.mask s j = true)
+    (hstart : ∀ b, b < c.B → ∀ k, k < c.W → e.mask (s0 b) (start (k * c.B + b)) = true)
+    {st : BeamSt S} (h : BeamReachF e π c plus start s0 st) :
+    ∀ b, b < c.B → ∀ k, k < c.W →
+      admittedD e (s0 b) (btActs c.B st.bufs (k * c.B + b)) = true := by
+  intro b hb k hk
+  apply admittedD_of_forced
+  · exact beams_mask_confined e π c plus start s0 hπ h b hb k hk
+  · intro a ha
+    obtain ⟨k', hk', hh⟩ := beam_head_is_start e π c plus start s0 h.reach b hb k hk
+    rw [hh] at ha
+    cases ha
+    exact hstart b hb k' hk'
+
+/-! ### places where the property, as worded, fails without further hypotheses (DESIGN §4.3) -/
+
+/-- **`beams_feasible`, forced move included, with NO hypothesis on the start rule**: every beam is a
+mask-confined run from reset. -/
 def beams_mask_confined_statement : Prop :=
   ∀ (S : Type) (e : DEnv S) (π : S → Row) (c : BeamCfg) (plus : Int → Int → Int) (start : Nat → Nat)
     (s0 : Nat → S), (∀ s j, gather (π s) j ≠ none → e.mask s j = true) →
     ∀ st, BeamReachF e π c plus start s0 st → ∀ b, b < c.B → ∀ k, k < c.W →
       admittedD e (s0 b) (btActs c.B st.bufs (k * c.B + b)) = true
 
-/-- It is false: nothing makes the forced start nodes respect the mask (OP: `select_start_nodes`
-returns `1..W` even when one of them is masked in the reset state). -/
+/-- It is false: nothing *in beam search* makes the forced start nodes respect the mask — that is the
+start rule's obligation (`hstart` of `beams_mask_confined_full`).  OP's `select_start_nodes` violated
+it before upstream fix d560d2a (it returned `1..W` even when one of them was masked at reset); since
+the fix it is discharged by C12's `op_starts_feasible`. -/
 theorem beams_mask_confined_counterexample : ¬ beams_mask_confined_statement := by
   intro h
   -- one instance, one beam, two actions; action 0 is masked, the start-node rule forces it
